@@ -20,7 +20,7 @@ REGISTRY["C01"] = dict(
                "C01_pop_back", "C01_pop_front", "C01_remove", "C01_swap", "C01_swap_remove_back",
                "C01_swap_remove_front", "C01_truncate_back", "C01_truncate_front", "C01_clear",
                "C01_make_contiguous", "C01_extend", "C01_extend_from_slice", "C01_fill_spare_with", "C01_fill_with", "C01_drain",
-               "C01_write", "C01_history", "C01_history_from_new", "C01_fill_spare", "C01_fill"),
+               "C01_write", "C01_history", "C01_history_from_new", "C01_fill_spare", "C01_fill", "C01_history_full"),
     cases=P.cases_C01, projection=proj_behaviour, oracles=[P.o_spec, P.o_views, P.o_ledger, P.o_no_defect_panic],
 )
 
